@@ -1478,8 +1478,41 @@ fn c09_pool(t: &[&str]) -> Option<String> {
     Some("ok holds".to_string())
 }
 
+/// C10: the order `.max()` uses ranks states by score — two states of the same type:
+/// <stateA> ; <stateB>
+fn c10_order(t: &[&str]) -> Option<String> {
+    let parts: Vec<&[&str]> = t.split(|x| *x == ";").collect();
+    if parts.len() != 2 {
+        return None;
+    }
+    let mut ka = crate::exec::Toks::new(parts[0]);
+    let mut kb = crate::exec::Toks::new(parts[1]);
+    let (a, b) = match (crate::state::parse_state(&mut ka)?, crate::state::parse_state(&mut kb)?) {
+        (Ok(a), Ok(b)) => (a, b),
+        _ => return Some("ok holds invalid-request".to_string()),
+    };
+    let (sa, sb) = match (crate::state::state_score(&a), crate::state::state_score(&b)) {
+        (Some(x), Some(y)) if !x.is_nan() && !y.is_nan() => (x, y),
+        _ => return Some("ok holds no-comparable-score".to_string()),
+    };
+    use crate::state::AnyState::*;
+    use packing::traits::State as StateTrait;
+    let max_score = match (&a, &b) {
+        (HardLine(x), HardLine(y)) => StateTrait::score(&std::cmp::max(x.clone(), y.clone())),
+        (HardMol(x), HardMol(y)) => StateTrait::score(&std::cmp::max(x.clone(), y.clone())),
+        (LJ(x), LJ(y)) => StateTrait::score(&std::cmp::max(x.clone(), y.clone())),
+        _ => return Some("ok holds different-types".to_string()),
+    }?;
+    let want = if sa > sb { sa } else { sb };
+    if max_score != want {
+        return Some(format!("ok FAILS max of states with scores {:e} and {:e} has score {:e}", sa, sb, max_score));
+    }
+    Some("ok holds".to_string())
+}
+
 pub fn oracle(t: &[&str]) -> Option<String> {
     match *t.get(0)? {
+        "c10_order" => c10_order(&t[1..]),
         "c11_roundtrip" => c11_roundtrip(&t[1..]),
         "c11_svg" => c11_svg(&t[1..]),
         "cli_check" => cli_check(&t[1..]),
